@@ -191,7 +191,21 @@ func CheckUciHistory(sc *Scenario, out *UciRunOut, res *RunResult) {
 		if c13 && !excl {
 			// depth limit: completes exactly d iterations unless single legal move
 			if g.limits.Depth > 0 && g.stopT < 0 && g.limits.Nodes == 0 && !g.limits.TimeControlled() && !g.limits.needsStop() {
-				if len(legalRoot) > 1 && len(g.limits.Moves) != 1 {
+				// (the root moves that count are the distinct legal ones of the
+				// searchmoves list, if there is one)
+				eff := len(legalRoot)
+				if len(g.limits.Moves) > 0 {
+					seen := map[string]bool{}
+					for _, m := range g.limits.Moves {
+						for _, lm := range legalRoot {
+							if strings.EqualFold(lm.String(), m) {
+								seen[strings.ToLower(m)] = true
+							}
+						}
+					}
+					eff = len(seen)
+				}
+				if eff > 1 {
 					if g.lastDepth != g.limits.Depth {
 						res.addViolation("C13", "depth_not_exact", fmt.Sprintf("%q on %s: last completed iteration %d", g.line, g.root.Fen(), g.lastDepth))
 					}
